@@ -189,7 +189,13 @@ pub fn drive_mem(spec: &MemSpec, replicas: bool, source: &mut dyn OpSource) -> M
                 let pending = &spec.src[consumed..visible];
                 let cap = match spec.func.whole(pending.len()) {
                     Some(need) => need.max(offer.cap.min(need + 24)),
-                    None => offer.cap.max(min),
+                    None => {
+                        if offer.submin && spec.func.to_str() {
+                            offer.cap
+                        } else {
+                            offer.cap.max(min)
+                        }
+                    }
                 };
                 if cap == min {
                     run.faults.min_capacity += 1;
